@@ -916,3 +916,133 @@ eq(['C16'], 'log-slug-only', GIT,
 eq(['C16'], 'log-masked-url', GIT,
    "        top = os.path.expanduser('~/.bert-e/')",
    "        LOG.debug('url %s', self._url.replace(self._mask_pwd, '***'))\n        top = os.path.expanduser('~/.bert-e/')")
+
+# ------------------------------------------------------------------- C13
+mut('C13', 'dedupe-against-current', BERTE,
+    "        if job not in self.task_queue.queue:",
+    "        if job not in list(self.task_queue.queue) + [self.status.get('current job')]:")
+mut('C13', 'dedupe-against-done', BERTE,
+    "        if job not in self.task_queue.queue:",
+    "        if job not in self.task_queue.queue and job not in self.tasks_done:")
+mut('C13', 'handler-narrowed', BERTE,
+    "            self.process(job)\n        except Exception as err:",
+    "            self.process(job)\n        except BertE_Exception as err:")
+mut('C13', 'handler-reraises', BERTE,
+    "                job.details = str(err)\n            elif",
+    "                job.details = str(err)\n                raise\n            elif")
+mut('C13', 'pop-outside-finally', BERTE,
+    "            self.tasks_done.appendleft(job)\n            self.status.pop('current job')\n        return job",
+    "            self.tasks_done.appendleft(job)\n        self.status.pop('current job')\n        return job")
+mut('C13', 'task-done-dropped', BERTE,
+    "            job.complete()\n            self.task_queue.task_done()\n",
+    "            job.complete()\n")
+mut('C13', 'status-only-for-unknown', BERTE,
+    "            job.status = type(err).__name__\n            job.details = None\n\n            if not isinstance",
+    "            job.details = None\n\n            if not isinstance")
+mut('C13', 'commit-eq-ignores-sha', JOB,
+    "                self.project_repo.full_name == other.project_repo.full_name and\n                self.commit == other.commit)",
+    "                self.project_repo.full_name == other.project_repo.full_name)")
+mut('C13', 'pr-eq-by-status', JOB,
+    "                self.pull_request.id == other.pull_request.id)",
+    "                self.pull_request.id == other.pull_request.id and\n                self.status == other.status)")
+mut('C13', 'queues-job-deduped', JOB,
+    "    def __str__(self):\n        return \"QueuesJob\"",
+    "    def __str__(self):\n        return \"QueuesJob\"\n\n    def __eq__(self, other):\n        return isinstance(other, QueuesJob)")
+mut('C13', 'sys-exit-in-handler', DELQ,
+    "    if not job.settings.use_queue:\n        raise exceptions.NotMyJob()\n\n    repo = clone_git_repo(job)\n\n    # Delete all q/* branches.",
+    "    if not job.settings.use_queue:\n        import sys\n        sys.exit(1)\n\n    repo = clone_git_repo(job)\n\n    # Delete all q/* branches.")
+mut('C13', 'raise-system-exit', GWF,
+    "    if not candidates:\n        raise messages.NothingToDo(\n            'Could not find any branch for commit {}' .format(job.commit)\n        )",
+    "    if not candidates:\n        raise SystemExit(0)")
+mut('C13', 'worker-loop-breaks', SERVER,
+    "        while True:\n            bert_e.process_task()",
+    "        while True:\n            if bert_e.process_task().status == 'JobFailure':\n                break")
+mut('C13', 'github-202-without-put', WEBHOOK,
+    "    current_app.bert_e.put_job(job)\n    return Response('Accepted', 202)",
+    "    if not isinstance(job, CommitJob):\n        current_app.bert_e.put_job(job)\n    return Response('Accepted', 202)")
+mut('C13', 'api-202-without-put', APIBASE,
+    "        current_app.bert_e.put_job(job)\n\n        return Response(job.as_json(), 202",
+    "        if not self.admin:\n            current_app.bert_e.put_job(job)\n\n        return Response(job.as_json(), 202")
+mut('C13', 'bounded-queue', BERTE,
+    "        self.task_queue = Queue()", "        self.task_queue = Queue(maxsize=10)")
+mut('C13', 'put-nowait', BERTE,
+    "            self.task_queue.put(job)", "            self.task_queue.put(job, block=False)")
+mut('C13', 'handler-calls-notify', BERTE,
+    "                LOG.exception(\"Job '%s' finished with an error.\", job)\n",
+    "                LOG.exception(\"Job '%s' finished with an error.\", job)\n                job.pull_request.add_comment(str(err))\n")
+
+# ------------------------------------------------------------------- C14
+mut('C14', 'delete-queues-not-admin', APIQ,
+    "    method = 'DELETE'\n    admin = True", "    method = 'DELETE'\n    admin = False")
+mut('C14', 'create-branch-not-admin', APIBR,
+    "    method = 'POST'\n    admin = True\n    job = CreateBranchJob",
+    "    method = 'POST'\n    admin = False\n    job = CreateBranchJob")
+mut('C14', 'auth-wrapper-dropped', APIBASE,
+    "        view = auth_decorator(cls.as_view(cls.__name__))",
+    "        view = cls.as_view(cls.__name__)")
+mut('C14', 'auth-wrapper-literal-false', APIBASE,
+    "        auth_decorator = requires_auth(cls.admin)",
+    "        auth_decorator = requires_auth()")
+mut('C14', 'admin-check-skipped', AUTH,
+    "            if admin and not user_admin:\n                return unauthorized('You do not have admin privileges.')\n\n",
+    "")
+mut('C14', 'admin-check-inverted', AUTH,
+    "            if admin and not user_admin:", "            if not admin and not user_admin:")
+mut('C14', 'login-check-dropped', AUTH,
+    "            if not session.get('user'):\n                return authenticate('You are not logged in.')\n\n",
+    "")
+mut('C14', 'session-admin-always', AUTH,
+    "    session['admin'] = user in bert_e.settings.admins",
+    "    session['admin'] = True")
+mut('C14', 'session-admin-elsewhere', AUTH,
+    "        access_token = request.args.get('access_token')\n        if access_token:",
+    "        access_token = request.args.get('access_token')\n        if request.args.get('admin'):\n            session['admin'] = True\n        if access_token:")
+mut('C14', 'basic-auth-above-route', WEBHOOK,
+    "@blueprint.route('/github', methods=['POST'])\n@requires_basic_auth\ndef parse_github_webhook():",
+    "@requires_basic_auth\n@blueprint.route('/github', methods=['POST'])\ndef parse_github_webhook():")
+mut('C14', 'basic-auth-removed', WEBHOOK,
+    "@blueprint.route('/bitbucket', methods=['POST'])\n@requires_basic_auth\n",
+    "@blueprint.route('/bitbucket', methods=['POST'])\n")
+mut('C14', 'basic-auth-or', AUTH,
+    "    return username == current_app.config['WEBHOOK_LOGIN'] and \\\n        password == current_app.config['WEBHOOK_PWD']",
+    "    return username == current_app.config['WEBHOOK_LOGIN'] or \\\n        password == current_app.config['WEBHOOK_PWD']")
+mut('C14', 'basic-auth-missing-ok', AUTH,
+    "        if not auth or not check_basic_auth(auth.username, auth.password):",
+    "        if auth and not check_basic_auth(auth.username, auth.password):")
+mut('C14', 'slug-check-removed', WEBHOOK,
+    "    if repo_slug != current_app.bert_e.project_repo.slug:\n        LOG.error('received repo_slug (%s) incompatible with settings',\n                  repo_slug)\n        return Response('Internal Server Error', 500)\n\n",
+    "")
+mut('C14', 'github-fullname-only-logged', WEBHOOK,
+    "                  current_app.bert_e.project_repo.full_name)\n        return Response('Internal Server Error', 500)\n",
+    "                  current_app.bert_e.project_repo.full_name)\n")
+mut('C14', 'validation-call-removed', APIBASE,
+    "        try:\n            self.validate_endpoint_data(*args, **kwargs, json=json)\n        except ValueError:\n            return invalid()\n\n",
+    "")
+mut('C14', 'validation-error-swallowed', APIBASE,
+    "        except ValueError:\n            return invalid()",
+    "        except ValueError:\n            LOG.warning('invalid data')")
+mut('C14', 'hotfix-alt-unanchored', APIBR,
+    "|^hotfix/(\\d+)\\.(\\d+)\\.(\\d+)$'  # noqa", "|^hotfix/(\\d+)\\.(\\d+)\\.(\\d+)'  # noqa")
+mut('C14', 'branch-from-any', APIBR,
+    "BRANCH_FROM_REGEXP = r'^[a-fA-F0-9]*$|^development/(\\d+)\\.(\\d+)$'",
+    "BRANCH_FROM_REGEXP = r'^[a-fA-F0-9]*|^development/(\\d+)\\.(\\d+)$'")
+mut('C14', 'pr-id-zero-ok', APIPR,
+    "        if pr_id < 1:", "        if pr_id < 0:")
+mut('C14', 'delete-branch-no-validation', APIBR,
+    "    job = DeleteBranchJob\n\n    @staticmethod\n    def validate_endpoint_data(branch, json):\n        if not re.match(BRANCH_REGEXP, branch):\n            raise ValueError()\n",
+    "    job = DeleteBranchJob\n")
+mut('C14', 'open-view-enqueues', 'bert_e/server/status.py',
+    "    build_key = current_app.bert_e.settings.build_key\n",
+    "    build_key = current_app.bert_e.settings.build_key\n    if request.args.get('rebuild'):\n        from ..jobs.rebuild_queues import RebuildQueuesJob\n        current_app.bert_e.put_job(RebuildQueuesJob(bert_e=current_app.bert_e))\n")
+mut('C14', 'manage-unauthenticated', MANAGE,
+    "@blueprint.route('/manage', methods=['GET'], defaults={'error': None})\n@requires_auth()\n",
+    "@blueprint.route('/manage', methods=['GET'], defaults={'error': None})\n")
+mut('C14', 'endpoint-registered-by-hand', APIINIT,
+    "    for form in FORMS:\n        app.register_blueprint(form.as_blueprint())",
+    "    for form in FORMS:\n        app.register_blueprint(form.as_blueprint())\n    from flask import Blueprint\n    bp = Blueprint('raw', __name__, url_prefix='/api')\n    bp.add_url_rule('/raw/queues', methods=('DELETE',),\n                    view_func=DeleteQueues.as_view('raw'))\n    app.register_blueprint(bp)")
+mut('C14', 'job-user-from-json', APIBASE,
+    "        job = self.job(kwargs=kwargs, user=user,\n                       settings=json, bert_e=current_app.bert_e)",
+    "        job = self.job(kwargs=json, user=user,\n                       settings=json, bert_e=current_app.bert_e)")
+eq(['C14'], 'form-admin-overridden-by-init-subclass', APIQ,
+    "    endpoint_cls = DeleteQueues\n    title = 'Delete the queue'",
+    "    endpoint_cls = DeleteQueues\n    admin = False\n    title = 'Delete the queue'")
